@@ -666,7 +666,7 @@ def ob_target_extra():
 
 
 SUB_USES = ["common, local, 'sub.c'", "common + local, 'sub.c'", "local, 'sub.c'", "['sub.c'] + common", "sub_srcs", "common, 'sub.c'"]
-SUB_OPS = [('info', None), ('src_add', 'new.c'), ('src_rm', 'sub.c'), ('src_add', 'sub.c')]
+SUB_OPS = [('info', None), ('src_add', 'new.c'), ('src_rm', 'sub.c'), ('src_add', 'sub.c'), ('src_add', '../subx/other.c')]      # subx: a sibling directory whose name merely BEGINS with the target's directory name
 
 
 def ob_info_subdir():
@@ -682,7 +682,8 @@ def ob_info_subdir():
         root = "project('p')\ncommon = files('common.c')\nsubdir('sub')\nexecutable('rootprog', common, 'main.c')\n"
         sub = "local = files('local.c')\nsub_srcs = [common, 'sub.c']\nexecutable('subprog', %s)\n" % uses
         os.makedirs(os.path.join(d, 'sub'), exist_ok=True)
-        for rel in ('common.c', 'main.c', 'sub/local.c', 'sub/sub.c', 'sub/new.c'):
+        os.makedirs(os.path.join(d, 'subx'), exist_ok=True)
+        for rel in ('common.c', 'main.c', 'sub/local.c', 'sub/sub.c', 'sub/new.c', 'subx/other.c'):
             with open(os.path.join(d, rel), 'w') as f: f.write('')
         with open(os.path.join(d, 'meson.build'), 'w') as f: f.write(root)
         with open(os.path.join(d, 'sub', 'meson.build'), 'w') as f: f.write(sub)
@@ -707,15 +708,15 @@ def ob_info_subdir():
             before = real()
             if op != 'info':
                 rw = R.Rewriter(d); rw.analyze_meson()
-                rw.process({'type': 'target', 'target': 'subprog', 'operation': op, 'sources': [os.path.join('sub', name)], 'subdir': '', 'target_type': 'executable'})
+                rw.process({'type': 'target', 'target': 'subprog', 'operation': op, 'sources': [os.path.normpath(os.path.join('sub', name))], 'subdir': '', 'target_type': 'executable'})
                 rw.apply_changes()
             after = real()
         finally:
             pass
         check(open(os.path.join(d, 'meson.build')).read() == root, 'the build file of the parent directory is not touched')
         exp = set(before['subprog'])
-        if op == 'src_add': exp = exp | {os.path.join('sub', name)}
-        elif op == 'src_rm': exp = exp - {os.path.join('sub', name)}
+        if op == 'src_add': exp = exp | {os.path.normpath(os.path.join('sub', name))}
+        elif op == 'src_rm': exp = exp - {os.path.normpath(os.path.join('sub', name))}
         new_sub = open(os.path.join(d, 'sub', 'meson.build')).read()
         if new_sub != sub or op == 'info':
             check(set(after['subprog']) == exp, 'the addressed target has exactly the requested sources (real interpreter)')
